@@ -44,26 +44,9 @@ BAD = {
 }
 
 
-def run(rep: Report) -> None:
-    rep.trusted += TRUSTED_WIRE
-    prog = rep.prog
-    cks = wire_results(rep, "base") + wire_results(rep, "flags", impls=("casadi", "numpy"))
-    if not require_no_errors(rep, cks):
-        return
-    for ck in cks:
-        lab = ck.cfg.label()
-        found = False
-        for p in ck.paths:
-            for e in p.events:
-                if e[0] in BAD:
-                    found = True
-                    rep.refuted("no-side-effects", lab, e[1], f"{BAD[e[0]]}: {e[2]}",
-                                key=f"{e[0]}|{_fn(e[1])}")
-                    break
-            if found:
-                break
-        if not found:
-            rep.holds("no-side-effects", lab, "Network.step")
+def history_independence(rep: Report, cks) -> int:
+    """the same objects stepped before (other options / engine argument / array ranks) give the
+    same next states as a fresh step; returns the number of configurations compared"""
     # history independence: the same objects stepped before with other options / engine
     # arguments give the same next states as a fresh step
     from dataclasses import replace as _replace
@@ -109,6 +92,30 @@ def run(rep: Report) -> None:
                                   f"{mm[0][1][:250]} | fresh step = {mm[0][2][:250]}")
         rep.check(ok, "history-independence", cfg.label(), "Network.step", detail,
                   key=f"history|{cfg.u_origin}|{cfg.impl}|{detail[:40]}")
+    return nh
+
+
+def run(rep: Report) -> None:
+    rep.trusted += TRUSTED_WIRE
+    prog = rep.prog
+    cks = wire_results(rep, "base") + wire_results(rep, "flags", impls=("casadi", "numpy"))
+    if not require_no_errors(rep, cks):
+        return
+    for ck in cks:
+        lab = ck.cfg.label()
+        found = False
+        for p in ck.paths:
+            for e in p.events:
+                if e[0] in BAD:
+                    found = True
+                    rep.refuted("no-side-effects", lab, e[1], f"{BAD[e[0]]}: {e[2]}",
+                                key=f"{e[0]}|{_fn(e[1])}")
+                    break
+            if found:
+                break
+        if not found:
+            rep.holds("no-side-effects", lab, "Network.step")
+    nh = history_independence(rep, cks)
     rep.floor("configurations with earlier steps", nh, 8)
     rep.analysed["configurations"] = len(cks)
     rep.floor("configurations", len(cks), 1000)
